@@ -4199,7 +4199,8 @@ def qr(a, mode='reduced', inner_labels=[None, None], cutoff=None, pos_diag_R=Fal
                 continue
         if pos_diag_R:
             r_diag = np.diag(r_block)
-            phase = r_diag / np.abs(r_diag)
+            abs_diag = np.abs(r_diag)
+            phase = np.where(abs_diag > 0, r_diag, 1.0) / np.where(abs_diag > 0, abs_diag, 1.0)
             K = len(r_diag)
             if K < q_block.shape[1]:
                 q_block[:, :K] *= phase[np.newaxis, :]
